@@ -144,6 +144,11 @@ class SMCSampler(MCMCSampler):
                 else:
                     beta_max = beta_try
             beta_star = beta_min
+            if beta_star <= beta_prev:
+                # The bisection could not resolve a step that keeps the target
+                # efficiency: take the smallest resolvable step so that the
+                # schedule always makes progress
+                beta_star = min(beta_prev + beta_tolerance, 1.0)
 
             if self.adaptive_min_step and beta_star < 1.0:
                 min_step = min_step * (1 - beta_prev) / (1 - beta_star)
